@@ -127,8 +127,6 @@ def run_case(seed, i, tier):
         name, data, descr = stored_form(rng, form, base, content, mtime)
         scn = core.Scenario([core.FileSpec(name, data, mtime)], opts + [name], None, "UTC")
         res = core.execute(scn, plan)
-        if res.timed_out:
-            res = core.execute(scn, plan, wall_cap=120.0)
         tr = res.trace
         cr.runs += 1
         cr.steps += tr.steps
